@@ -1,8 +1,12 @@
 package props
 
 import (
+	"context"
 	"fmt"
 	"math/rand"
+	"sync"
+	"sync/atomic"
+	"time"
 
 	"verif/harness/core"
 	"verif/harness/env"
@@ -107,6 +111,76 @@ func tenantSequence(r *core.Run, wl string, idx int, rng *rand.Rand, judgeTarget
 			if !deliveryTargetOK(call.D, t.Desc.ACS[0].Location) {
 				viol(call, "error_reply_to_other_tenant", fmt.Sprintf("error reply delivered to %q, this tenant registered %q", call.D.Target, t.Desc.ACS[0].Location))
 			}
+		}
+	}
+}
+
+// tenantOverlap: two tenants' requests for the SAME entity ID are in flight together; the service-provider lookup of
+// the first is held inside the storage until the second has reached the storage as well (or clearly never will,
+// because it waits for the first one's lookup instead of making its own). Each request must be served from its own
+// tenant's registration: consumer endpoint, signing requirement and key.
+func tenantOverlap(r *core.Run, wl string, idx int, rng *rand.Rand) {
+	e, ts := tenantWorld(rng)
+	ia := rng.Intn(len(ts))
+	ib := (ia + 1 + rng.Intn(len(ts)-1)) % len(ts)
+	var arrivals atomic.Int64
+	second := make(chan struct{})
+	var once sync.Once
+	e.W.Before = func(_ context.Context, _, op string, _ int) {
+		if op != "GetEntityByID" {
+			return
+		}
+		if arrivals.Add(1) == 1 {
+			select {
+			case <-second:
+			case <-time.After(60 * time.Millisecond):
+			}
+		} else {
+			once.Do(func() { close(second) })
+		}
+	}
+	mk := func(t *tenant) ssoSend {
+		a := validAuthn(rng, t.Desc)
+		a.ACSURL, a.ACSIndex, a.ProtocolBinding = "", "", ""
+		if a.Destination != "" {
+			a.Destination = t.Issuer + "/SSO"
+		}
+		return ssoSend{Binding: "redirect", XML: a.XML(rng), HasRelay: true, Relay: "MKrelay", Host: t.Host, SignKey: t.Desc.Cert, Alg: spsim.AlgRSASHA256}
+	}
+	sends := []ssoSend{mk(ts[ia]), mk(ts[ib])}
+	calls := make([]*env.Call, 2)
+	var wg sync.WaitGroup
+	for i := range sends {
+		wg.Add(1)
+		go func(i int) {
+			defer wg.Done()
+			if i == 1 {
+				for k := 0; k < 2000 && arrivals.Load() == 0; k++ {
+					time.Sleep(50 * time.Microsecond)
+				}
+			}
+			calls[i], _ = sends[i].do(e)
+		}(i)
+	}
+	wg.Wait()
+	for i, ti := range []int{ia, ib} {
+		t, call := ts[ti], calls[i]
+		class := fmt.Sprintf("tenants_overlapping|tenant=%d|request_%d", ti, i+1)
+		desc := map[string]any{"tenant_host": t.Host, "tenant_acs": t.Desc.ACS, "other_tenant_in_flight": ts[[]int{ib, ia}[i]].Host}
+		r.Eval(fmt.Sprintf("%s|%d", class, idx))
+		r.Count("tenant_overlap_requests", 1)
+		if call.Panic != "" {
+			r.Violate(core.Violation{Clause: "panic", Class: class, Reason: call.Panic, Workload: wl, Index: idx, Case: desc, Observed: call.Describe()})
+			continue
+		}
+		ev := call.First("CreateAuthRequest")
+		if ev == nil || ev.Err || len(ev.Args) < 2 {
+			r.Violate(core.Violation{Clause: "own_request_refused_beside_other_tenant", Class: class, Reason: fmt.Sprintf("a conformant request signed with this tenant's registered key was not accepted (status %d %s) while a request of another tenant for the same entity ID was in flight", call.D.Status, clipS(string(call.D.Body), 160)), Workload: wl, Index: idx, Case: desc, Observed: call.Describe()})
+			continue
+		}
+		r.Count("tenant_overlap_accepted", 1)
+		if ev.Args[0] != t.Desc.ACS[0].Location || ev.Args[1] != t.Desc.ACS[0].Binding {
+			r.Violate(core.Violation{Clause: "persisted_pair_of_other_tenant", Class: class, Reason: fmt.Sprintf("CreateAuthRequest(%q, %q), this tenant registered %v (the other tenant's lookup was in flight)", ev.Args[0], ev.Args[1], t.Desc.ACS), Workload: wl, Index: idx, Case: desc, Observed: call.Describe()})
 		}
 	}
 }
